@@ -4,6 +4,29 @@ VERIF = os.path.dirname(os.path.dirname(os.path.abspath(__file__)))
 ALL = ["C%02d" % i for i in range(1, 21)]
 
 CLAIMS = {
+ "C04": dict(
+    text="MathComp theorems: for every tangent of f(y(theta), theta) = 0 the two steps of the backward pass (solve J^T g = -G, pull g "
+         "back through theta |-> f(y*, theta)) give <G, dy> = <P^T g, dtheta> (any size, any commutative ring); the gradient is "
+         "determined by (y*, theta) alone - no forward method, y0 or backward solver enters; the tensor / non-tensor separation "
+         "round-trips for every pattern of length <= 10 (by computation) and rejects wrong lengths. The executable Gallina model "
+         "(symbolic Jacobians at the returned point, Gauss-Jordan) runs at IEEE binary64 against autograd through the public "
+         "rootfinder / equilibrium / minimize for every forward method and backward solver (2^-22).",
+    note="Trusted: Coq kernel + vm_compute + PrimFloat; autograd's pull-back through the user function; jac and solve (C17, C02). "
+         "Second order, independence from y0 / method, no gradient to y0 and non-tensor parameters are implementation oracles "
+         "against a Newton-polished differentiable reference.",
+    technique="Coq/MathComp proof (adjoint of the implicit-function tangent) + symbolic-Jacobian model correspondence",
+    ref="DESIGN.md section 7, C04"),
+ "C17": dict(
+    text="MathComp theorems: the symbolic Jacobian of the expression language is the derivative under any derivation; mixed second "
+         "partials commute (Hessian symmetric, so rmv = mv is sound); mv (double-backward trick) and rmv (plain backward) are "
+         "adjoint; a Jacobian operator (mv + rmv leaf) has mm / rmm / fullmatrix / .H consistent with the same matrix (instance of "
+         "C11). The symbolic Jacobian / Hessian model runs at IEEE binary64 against xitorch.grad.jac / hess (mv, rmv, fullmatrix) "
+         "to 2^-40.",
+    note="Trusted: Coq kernel + vm_compute + PrimFloat; autograd on polynomial maps. Shapes, index selections, rejection of "
+         "non-differentiable arguments, batched operands, differentiability of the products and cache freshness are implementation "
+         "oracles. Known finding F24: an argument the function ignores raises instead of giving the zero operator.",
+    technique="Coq/MathComp proof (symbolic differentiation correctness, symmetry of second partials) + model correspondence",
+    ref="DESIGN.md section 7, C17"),
  "C02": dict(
     text="MathComp theorems over any commutative ring, any derivation (any differentiable parametrisation; applied twice: second "
          "order), any size and number of columns: the tangent of A X - M X E = B; the four outputs of the backward pass (grad_B = V, "
